@@ -428,3 +428,6 @@ func init() {
 
 // HarvestLiterals exposes the string literals of the repository's test files per package (css, html, xml, json, js).
 func HarvestLiterals(repo string) map[string][]string { return harvest(repo) }
+
+// Concretise spells a sequence of character classes (exported for other suites).
+func Concretise(cls []string, rng *rand.Rand) []byte { return concretise(cls, rng) }
